@@ -68,19 +68,14 @@ func capsStreams(cfg *hx.Config) (*hx.Stream, *hx.Stream, *hx.Stream) {
 		if k%5 == 0 && prof.XTVersion != "" {
 			prof.XTVersion = "kitty(0.31.0)" // quirk: shaped emoji but no ZWJ sequences
 		}
-		fc := hx.NewFakeConsole(prof)
-		vx, err := vaxis.New(vaxis.Options{WithConsole: fc, NoSignals: true, DisableMouse: true})
-		if err != nil {
-			panic(err)
-		}
-		got := vx.VerifCaps()
+		fc, vx, got, attempts := startTerminal(prof, nil)
 		var obs []string
 		var obsJ []bool
 		for _, n := range capOrder {
 			obs = append(obs, hx.Bool(got[n]))
 			obsJ = append(obsJ, got[n])
 		}
-		caps.Add(hx.Tuple(advTerm(m), hx.List(obs)), map[string]interface{}{"advertised_mask": m, "caps": obsJ, "no_cursor_position_reply": nocpr[k]}, m != 0, fmt.Sprintf("bits=%d", popcount(m)), fmt.Sprintf("nocpr=%v", nocpr[k]))
+		caps.Add(hx.Tuple(advTerm(m), hx.List(obs)), map[string]interface{}{"advertised_mask": m, "caps": obsJ, "no_cursor_position_reply": nocpr[k], "attempts": attempts}, m != 0, fmt.Sprintf("bits=%d", popcount(m)), fmt.Sprintf("nocpr=%v", nocpr[k]))
 		// width method: RenderedWidth against gwidth under each method
 		{
 			var pw, ow []string
@@ -123,6 +118,30 @@ func capsStreams(cfg *hx.Config) (*hx.Stream, *hx.Stream, *hx.Stream) {
 		hx.WithTimeout(2*time.Second, vx.Close)
 	}
 	return caps, gate, width
+}
+
+// startTerminal runs New on a fake terminal with the given profile.  The explicit-width probe of
+// sendQueries waits 50 ms of real time for the cursor position report; on an overloaded machine
+// the reply can miss that window although the terminal answered at once.  A terminal that
+// advertises explicit width and answers cursor position queries is therefore started again (at
+// most three times) when explicit width was not detected; a Vaxis that fails to detect it fails
+// all three attempts.  hook, when not nil, is installed as the console's WriteHook first.
+func startTerminal(prof hx.Profile, hook func(fc *hx.FakeConsole, p []byte)) (*hx.FakeConsole, *vaxis.Vaxis, map[string]bool, int) {
+	for attempt := 1; ; attempt++ {
+		fc := hx.NewFakeConsole(prof)
+		if hook != nil {
+			fc.WriteHook = func(p []byte) { hook(fc, p) }
+		}
+		vx, err := vaxis.New(vaxis.Options{WithConsole: fc, NoSignals: true, DisableMouse: true})
+		if err != nil {
+			panic(err)
+		}
+		got := vx.VerifCaps()
+		if got["explicitWidth"] || !prof.ExplicitWidth || prof.NoCPR || attempt == 3 {
+			return fc, vx, got, attempt
+		}
+		hx.WithTimeout(2*time.Second, vx.Close)
+	}
 }
 
 func popcount(m uint32) int {
@@ -228,7 +247,8 @@ func main() {
 		add(vaxis.RGBColor(uint8(ch[0]), uint8(ch[1]), uint8(ch[2])), "midpoint")
 	}
 	fdistS := fdistStream(cfg)
+	rpmS := rpmStream(cfg)
 	capsS, gateS, widthS := capsStreams(cfg)
-	cfg.Write("C07", "fdist: pairs of channel-difference triples in [-255,255]^3 (all triples over a boundary set, all 511 values of each term, random, algebraic exact ties and their neighbours, neighbours in the exact order of two windows: exact ties between different triples and gaps <= 2/10^4) with math.Float64bits of asIndex's trial expression for both, Go's trial(d) < trial(e) and trial(d) == 0, compared bit for bit with the binary64 model; non-trivial = the triples differ; colours now also: every one of the 2^24 RGB colours whose asIndex result is not the first entry at minimal exact distance (found by running the real asIndex on all of them), and colours with one channel half way between two cube levels (exact ties); width: on the same terminals (some identifying as kitty: noZWJ quirk) RenderedWidth of probe graphemes (narrow, wide, emoji with modifier, ZWJ sequence, combining, VS16, flag, empty, lone mark) against the library's gwidth under the method the reported capabilities select; caps: fake terminals answering exactly the start-up queries of a capability subset (quick: none, all, every single capability, every pair, 400 random subsets of 17; thorough: all 2^17), capabilities reported by Vaxis compared with those advertised; gate: on such terminals three frames (render, render with cursor, refresh) with direct/indexed colours, styled and coloured underlines, hyperlinks, wide and zero-width cells, every token written classified by allowed; colours: default, indexed, all triples over a set of boundary channel levels, uniformly random RGB, raw 32-bit values, and histories of conversions with repeats of exact palette entries (a result must not depend on earlier conversions); non-trivial = RGB-tagged (goes through the palette search); distinct by (colour,result)",
-		[]*hx.Stream{s, fdistS, capsS, gateS, widthS}, map[string]interface{}{"sweep": sw}, nil)
+	cfg.Write("C07", "rpm: fake terminals that answer the DECRQM start-up queries for modes 2026 / 2027 / 2031 with every DECRPM value (directed: each mode x {no reply, no value, empty value, 0, 1, 2, 3, 4, 5, 9, 255} with the other modes silent or random, on terminals advertising nothing else / everything else / a random subset; random combinations, unsolicited reports for 2048 and other modes, second reports for a queried mode), capabilities reported by Vaxis compared with the model of handleSequence + the start-up loop (three mode capabilities) and with the specification of what each value establishes (all sixteen); non-trivial = at least one report was sent; fdist: pairs of channel-difference triples in [-255,255]^3 (all triples over a boundary set, all 511 values of each term, random, algebraic exact ties and their neighbours, neighbours in the exact order of two windows: exact ties between different triples and gaps <= 2/10^4) with math.Float64bits of asIndex's trial expression for both, Go's trial(d) < trial(e) and trial(d) == 0, compared bit for bit with the binary64 model; non-trivial = the triples differ; colours now also: every one of the 2^24 RGB colours whose asIndex result is not the first entry at minimal exact distance (found by running the real asIndex on all of them), and colours with one channel half way between two cube levels (exact ties); width: on the same terminals (some identifying as kitty: noZWJ quirk) RenderedWidth of probe graphemes (narrow, wide, emoji with modifier, ZWJ sequence, combining, VS16, flag, empty, lone mark) against the library's gwidth under the method the reported capabilities select; caps: fake terminals answering exactly the start-up queries of a capability subset (quick: none, all, every single capability, every pair, 400 random subsets of 17; thorough: all 2^17), capabilities reported by Vaxis compared with those advertised; gate: on such terminals three frames (render, render with cursor, refresh) with direct/indexed colours, styled and coloured underlines, hyperlinks, wide and zero-width cells, every token written classified by allowed; colours: default, indexed, all triples over a set of boundary channel levels, uniformly random RGB, raw 32-bit values, and histories of conversions with repeats of exact palette entries (a result must not depend on earlier conversions); non-trivial = RGB-tagged (goes through the palette search); distinct by (colour,result)",
+		[]*hx.Stream{s, fdistS, rpmS, capsS, gateS, widthS}, map[string]interface{}{"sweep": sw}, nil)
 }
